@@ -10,6 +10,7 @@ import asyncio
 import json
 
 from common import hexs
+import access as X
 import wire_common as W
 from impl_link import build_frame_bytes
 
@@ -26,7 +27,7 @@ def make_pair():
     proto = U.ZbossNcpProtocol(cfg[conf.CONF_DEVICE], api)
     w = Wire()
     proto.connection_made(w)
-    api._uart = proto
+    X.aset(api, "uart", proto)
     return loop, api, proto, w
 
 
@@ -75,7 +76,7 @@ def run_impl(stream, cuts, cls_list):
         for a, b in zip(pts, pts[1:]):
             proto.data_received(stream[a:b])
             loop.settle()
-        return got, len(api._rx_fragments)
+        return got, len(X.aget(api, "rx_fragments"))
     finally:
         asyncio.set_event_loop(None)
         loop.close()
